@@ -8,6 +8,7 @@ under the step observer.  The oracle is the unoptimised run itself.
 import random
 
 from .. import diff, nslapi
+from ..driver import time_limit, CaseTimeout
 from ..gen import core as gcore, vec as gvec, calls as gcalls, fwdtemplates, directed, vecdirected
 from ..lang import print_module
 from ..mon import vmobs, passes
@@ -181,7 +182,11 @@ def run_shard(tier, seed, shard, n, R):
         base = mrng.choice(seeds)
         src = base if j % 7 == 0 else whole.mutate(base, mrng, mrng.choice([1, 1, 2]))
         try:
-            twin(R, obs, "mutant:%d:%d" % (shard, j), src, None, "whole-language", in_rng=mrng)
+            with time_limit(20):
+                twin(R, obs, "mutant:%d:%d" % (shard, j), src, None, "whole-language", in_rng=mrng)
+        except CaseTimeout:
+            nslapi.VM._VERIF_OBSERVER = None
+            R.count("dropped_case_timeout")
         except RecursionError:
             R.count("dropped_RecursionError")       # a mutant that recurses without bound: resource exhaustion, not judged
         R.count("whole_language_candidates")
